@@ -140,8 +140,8 @@ b("C08-b3", "C08", "dulwich/am.py", "    if not r.refs.set_if_equals(HEADREF, ol
 b("C08-b4", "C08", REFS, "            if found:\n                os.remove(filename)\n\n            self._log(\n                name,\n                old_ref,\n                None,",
   "            self._log(\n                name,\n                old_ref,\n                None,", None)       # placeholder: removing the unlink is not a C08 matter (skipped below)
 V.pop()
-b("C08-b5", "C08", REFS, "                # Re-read packed refs: the snapshot taken before the lock may\n                # be stale by now.\n                current_ref = self.get_packed_refs().get(realname, None)\n",
-  "                current_ref = packed_refs.get(realname, None)\n", "R08.1")
+b("C08-b5", "C08", REFS, '        self._check_no_packed_conflict(realname, filename)\n        self._remove_empty_dirs_at(filename)\n        ensure_dir_exists(os.path.dirname(filename))\n        with GitFile(filename, "wb") as f:\n            if old_ref is not None:\n                try:\n                    # read again while holding the lock to handle race conditions\n                    orig_ref = self.read_loose_ref(realname)\n                    if orig_ref is None:\n                        orig_ref = self.get_packed_refs().get(realname, ZERO_SHA)\n                    if orig_ref != old_ref:\n                        f.abort()\n                        return False\n                except OSError:\n                    f.abort()\n                    raise\n\n            # Check if ref already has the desired value while holding the lock\n            # This avoids fsync when ref is unchanged but still detects lock conflicts\n            current_ref = self.read_loose_ref(realname)\n            if current_ref is None:\n                # Re-read packed refs: the snapshot taken before the lock may\n                # be stale by now.\n                current_ref = self.get_packed_refs().get(realname, None)\n',
+  '        self._check_no_packed_conflict(realname, filename)\n        packed_refs = self.get_packed_refs()\n        self._remove_empty_dirs_at(filename)\n        ensure_dir_exists(os.path.dirname(filename))\n        with GitFile(filename, "wb") as f:\n            if old_ref is not None:\n                try:\n                    # read again while holding the lock to handle race conditions\n                    orig_ref = self.read_loose_ref(realname)\n                    if orig_ref is None:\n                        orig_ref = self.get_packed_refs().get(realname, ZERO_SHA)\n                    if orig_ref != old_ref:\n                        f.abort()\n                        return False\n                except OSError:\n                    f.abort()\n                    raise\n\n            # Check if ref already has the desired value while holding the lock\n            # This avoids fsync when ref is unchanged but still detects lock conflicts\n            current_ref = self.read_loose_ref(realname)\n            if current_ref is None:\n                # Re-read packed refs: the snapshot taken before the lock may\n                # be stale by now.\n                current_ref = packed_refs.get(realname, None)\n', "R08.1")
 n("C08-n1", "C08", "dulwich/repo.py", "                old_head = self.refs[ref]\n                c.parents = [old_head, *merge_heads]\n                self.object_store.add_object(c)\n                ok = self.refs.set_if_equals(\n                    ref,\n                    old_head,\n",
   "                branch_tip = self.refs[ref]\n                c.parents = [branch_tip, *merge_heads]\n                self.object_store.add_object(c)\n                ok = self.refs.set_if_equals(\n                    ref,\n                    branch_tip,\n")
 
